@@ -38,6 +38,36 @@ let () =
       if List.length exp >= 2 then incr nontrivial;
       if mg <> !gout then (incr bad_model; Printf.printf "MISMATCH-MODEL dir=%d class=%s -go output differs from the model\n" !idx !cls)
       else if mc <> !cout then (incr bad_model; Printf.printf "MISMATCH-MODEL dir=%d class=%s -coq output differs from the model\n" !idx !cls);
+      (* the property read off the implementation's own output: the functions called by the Go
+         tests and named by the Coq examples, in order, are the declared test functions *)
+      let lines_of s = String.split_on_char '\n' s in
+      let starts p l = String.length l >= String.length p && String.sub l 0 (String.length p) = p in
+      let after p l = String.sub l (String.length p) (String.length l - String.length p) in
+      let upto c l = match String.index_opt l c with Some i -> String.sub l 0 i | None -> l in
+      let exp_fns = List.map (fun (f, n) -> (if f then "failing_" else "") ^ "test" ^ n) exp in
+      let go_calls = List.filter_map (fun l -> if starts "\tsuite.Equal(true, " l then Some (upto '(' (after "\tsuite.Equal(true, " l)) else None) (lines_of !gout) in
+      let go_methods = List.length (List.filter (fun l -> starts "func (suite *GoTestSuite) Test" l) (lines_of !gout)) in
+      let coq_ex = List.filter_map (fun l ->
+          let fail, l' = if starts "Fail Example " l then (true, after "Fail " l) else (false, l) in
+          if starts "Example " l' then
+            (match String.split_on_char ' ' l' with
+             | _ :: _ :: ":" :: fn :: _ -> Some (fail, fn)
+             | _ -> Some (fail, "?"))
+          else None) (lines_of !cout) in
+      let exp_coq = List.map (fun (f, n) -> (f, (if f then "failing_" else "") ^ "test" ^ n)) exp in
+      let is_error s = starts "ERROR" s in
+      if not (is_error !gout) && (go_calls <> exp_fns || go_methods <> List.length exp_fns) then begin
+        incr bad_spec;
+        Printf.printf "MISMATCH-SPEC dir=%d class=%s the generated Go file tests [%s] (%d test methods) but the package declares [%s]\n" !idx !cls
+          (String.concat "," go_calls) go_methods (String.concat "," exp_fns)
+      end else if not (is_error !cout) && coq_ex <> exp_coq then begin
+        incr bad_spec;
+        Printf.printf "MISMATCH-SPEC dir=%d class=%s the generated Coq file has examples [%s] but the package declares [%s]\n" !idx !cls
+          (String.concat "," (List.map (fun (f, n) -> (if f then "Fail " else "") ^ n) coq_ex)) (String.concat "," exp_fns)
+      end else if is_error !gout || is_error !cout then begin
+        incr bad_spec;
+        Printf.printf "MISMATCH-SPEC dir=%d class=%s test_gen failed: %s %s\n" !idx !cls !gout !cout
+      end;
       if mt <> exp then begin
         incr bad_spec;
         Printf.printf "MISMATCH-SPEC dir=%d class=%s tests emitted [%s] but the package declares [%s]\n" !idx !cls
